@@ -390,6 +390,12 @@ class Explorer:
         self._lemmas.append((i, z3.And((t == 0) == z3.Or(a == 0, b == 0),
                                        (t > 0) == z3.Or(z3.And(a > 0, b > 0), z3.And(a < 0, b < 0)))))
 
+    def note_lemma(self, t, lemma):
+        """Register a valid fact about term ``t`` (asserted lazily at the current solver level)."""
+        self._keep.append(t)
+        if t.get_id() not in self._lemma_depth:
+            self._lemmas.append((t.get_id(), lemma))
+
     def note_div(self, t, a, b):
         i = t.get_id()
         self._keep.append(t)
